@@ -328,6 +328,7 @@ static void vals(void)
 	vh_rng_t r;
 	vh_rng_seed(&r, vh_opt.seed, 112, (uint64_t)vh_opt.proc);
 	vh_case_key("vals");
+		vh_case_budget(900);
 	vh_case_replay("--extra vals");
 	/* 16-bit: every value, at offsets 0..2 of a small buffer, both fits and off-by-one */
 	for (uint32_t v = (uint32_t)vh_opt.proc; v < 65536 && !failed; v += (uint32_t)vh_opt.nproc) {
